@@ -491,29 +491,34 @@ type Clause struct {
 type LoopSpec struct {
 	Invariants []Clause
 	Decreases  *Clause
+	Exits      []Clause // asserted on every state leaving the loop
 }
 
 type FuncContract struct {
-	Key         string
-	Mode        string
-	Pure        bool
-	Trusted     bool
-	Requires    []Clause
-	Ensures     []Clause
-	PanicsIf    []Clause
-	Assigns     []SExpr
-	AssignsText []string
-	HasAssigns  bool
-	Loops       map[string]*LoopSpec // "0","1",... or "label:name"
-	Line        int
-	NoOverflow  []string
-	Domain      []Clause
-	Writes      []Clause     // per-store assertions (Case = variable name)
-	Chain       bool         // later postconditions may use earlier ones
-	Reveal      bool         // expand opaque spec functions of other packages in this function's VC
-	Findings    []Clause     // known-finding regions (Case = finding name)
-	Allocs      []*STypeExpr // for trusted / interface contracts: kinds the callee may allocate
-	Effects     []string
+	Key          string
+	Mode         string
+	Pure         bool
+	Trusted      bool
+	Requires     []Clause
+	Ensures      []Clause
+	PanicsIf     []Clause
+	Assigns      []SExpr
+	AssignsText  []string
+	HasAssigns   bool
+	Loops        map[string]*LoopSpec // "0","1",... or "label:name"
+	Line         int
+	NoOverflow   []string
+	Domain       []Clause
+	AssumeBefore []Clause     // unchecked assumptions before calls to a callee (Case = callee key)
+	Writes       []Clause     // per-store assertions (Case = variable name)
+	Havoc        bool         // callee may change every heap location; only its ensures (none, or proved separately) are assumed
+	Preserves    []string     // struct types whose fields a havoc callee never assigns (checked syntactically over the package)
+	Inline       bool         // trivial leaf function: executed at call sites instead of summarised
+	Chain        bool         // later postconditions may use earlier ones
+	Reveal       bool         // expand opaque spec functions of other packages in this function's VC
+	Findings     []Clause     // known-finding regions (Case = finding name)
+	Allocs       []*STypeExpr // for trusted / interface contracts: kinds the callee may allocate
+	Effects      []string
 }
 
 type SpecFunc struct {
@@ -696,6 +701,16 @@ func ParseContractFile(src, path string) (cf *ContractFile, err error) {
 				cur.Findings = append(cur.Findings, c)
 			case "case":
 				curCase = rest
+			case "assume-before":
+				// assume-before CALLEEKEY: expr  -- unchecked assumption (listed) right before calls to that callee
+				idx := strings.Index(rest, ": ")
+				if idx < 0 {
+					panic(fmt.Errorf("%s:%d: assume-before syntax: assume-before KEY: expr", path, l.line))
+				}
+				c := mk(strings.TrimSpace(rest[idx+2:]), l.line)
+				c.Case = strings.TrimSpace(rest[:idx])
+				cur.AssumeBefore = append(cur.AssumeBefore, c)
+				cf.Assumptions = append(cf.Assumptions, fmt.Sprintf("assume-before %s in %s: %s", c.Case, cur.Key, c.Text))
 			case "writes":
 				// writes NAME: expr over k (key/index), v (stored value): checked at every store to the local map/slice NAME
 				idx := strings.Index(rest, ":")
@@ -705,6 +720,15 @@ func ParseContractFile(src, path string) (cf *ContractFile, err error) {
 				c := mk(strings.TrimSpace(rest[idx+1:]), l.line)
 				c.Case = strings.TrimSpace(rest[:idx])
 				cur.Writes = append(cur.Writes, c)
+			case "preserves":
+				for _, n := range strings.Split(rest, ",") {
+					cur.Preserves = append(cur.Preserves, strings.TrimSpace(n))
+				}
+			case "havoc":
+				cur.Havoc = true
+				cur.HasAssigns = false
+			case "inline":
+				cur.Inline = true
 			case "chain":
 				cur.Chain = true
 			case "reveal":
@@ -773,6 +797,8 @@ func ParseContractFile(src, path string) (cf *ContractFile, err error) {
 				switch k2 {
 				case "invariant":
 					ls.Invariants = append(ls.Invariants, mk(r2, l.line))
+				case "exit":
+					ls.Exits = append(ls.Exits, mk(r2, l.line))
 				case "decreases":
 					c := mk(r2, l.line)
 					ls.Decreases = &c
